@@ -1,4 +1,4 @@
-HOOK_COMMITS = ["f51bb6a", "89c3e20"]
+HOOK_COMMITS = ["f51bb6a", "89c3e20", "f163a3b"]
 
 NOT_BUILT = "claimed in DESIGN.md; its check is not built yet in this round (work in progress, not a judgement that proof cannot apply)"
 NOT_APPLICABLE = {("C%02d" % i): NOT_BUILT for i in range(1, 21)}
